@@ -14,6 +14,11 @@ type frame struct {
 	freeVars    []*ObjectPtr
 	ip          int
 	basePointer int
+	// discardResult is set when a self call in statement position
+	// ("f(n-1)" as the last statement) was executed as a tail call in this
+	// frame: whatever the reused frame returns later, the call of the
+	// original activation yields undefined.
+	discardResult bool
 }
 
 // VM is a virtual machine that executes the bytecode compiled by Compiler.
@@ -624,6 +629,9 @@ func (v *VM) run() {
 					if nextOp == parser.OpReturn ||
 						(nextOp == parser.OpPop &&
 							parser.OpReturn == v.curInsts[v.ip+2]) {
+						if nextOp == parser.OpPop {
+							v.curFrame.discardResult = true
+						}
 						for p := 0; p < numArgs; p++ {
 							v.stack[v.curFrame.basePointer+p] =
 								v.stack[v.sp-numArgs+p]
@@ -642,6 +650,7 @@ func (v *VM) run() {
 				v.curFrame.ip = v.ip // store current ip before call
 				v.curFrame = &(v.frames[v.framesIndex])
 				v.curFrame.fn = callee
+				v.curFrame.discardResult = false
 				v.curFrame.freeVars = callee.Free
 				v.curFrame.basePointer = v.sp - numArgs
 				v.curInsts = callee.Instructions
@@ -691,6 +700,9 @@ func (v *VM) run() {
 			if int(v.curInsts[v.ip]) == 1 {
 				retVal = v.stack[v.sp-1]
 			} else {
+				retVal = UndefinedValue
+			}
+			if v.curFrame.discardResult {
 				retVal = UndefinedValue
 			}
 			//v.sp--
